@@ -357,21 +357,24 @@ impl InstructionIR {
                                 .push(QasmInstruction::MeasurementDeclaration(core_qasm_command));
                         }
                         MeasurementBasis::Custom(custom_matrix) => {
-                            // For custom basis, apply U_inverse, then measure in Z basis.
-                            let u_inv = [
-                                [custom_matrix[0][0].conj(), custom_matrix[1][0].conj()],
-                                [custom_matrix[0][1].conj(), custom_matrix[1][1].conj()],
-                            ];
-
-                            // Create uncontrolled Unitary IR instruction for inverse operation.
+                            // For a custom basis the simulator applies U, measures in the Z basis and applies U^dagger.
                             let unitary_op_ir =
-                                InstructionIR::Unitary(u_inv, target_qubit_idx, vec![]);
+                                InstructionIR::Unitary(*custom_matrix, target_qubit_idx, vec![]);
                             qasm_instructions.extend(unitary_op_ir.to_qasm()?);
 
                             // Measure in the Z-basis.
                             let core_qasm_command = format!("measure q[{}]", target_qubit_idx);
                             qasm_instructions
                                 .push(QasmInstruction::MeasurementDeclaration(core_qasm_command));
+
+                            // Rotate back with the adjoint.
+                            let u_dagger = [
+                                [custom_matrix[0][0].conj(), custom_matrix[1][0].conj()],
+                                [custom_matrix[0][1].conj(), custom_matrix[1][1].conj()],
+                            ];
+                            let unitary_dagger_ir =
+                                InstructionIR::Unitary(u_dagger, target_qubit_idx, vec![]);
+                            qasm_instructions.extend(unitary_dagger_ir.to_qasm()?);
                         }
                     }
                 }
